@@ -8,7 +8,9 @@
 use graph_engine::{Direction, GraphEngine, GraphError, PropertyValue};
 use nvh_common::*;
 use std::collections::HashMap;
-use std::sync::{Arc, Barrier};
+use std::cell::Cell;
+use std::sync::{Arc, Barrier, Condvar, Mutex};
+use std::time::Duration;
 
 #[derive(Clone, Debug, PartialEq)]
 enum Op {
@@ -235,6 +237,76 @@ fn conc_case(mode: u64, setup: &[Op], threads: Vec<Vec<Op>>, tag: &str, w: &mut 
     w.push(&term, &format!("{tag} mode={mode} threads={nthreads} thread_ops={total} setup_ops={}", setup.len()), nthreads >= 2 || setup.len() > 100);
 }
 
+thread_local! {
+    static PAUSER: Cell<bool> = const { Cell::new(false) };
+}
+
+/// Deterministic two-thread schedule through the guarded hook `graph.adjacency_rmw` (between the
+/// read of an adjacency list and its write-back): thread 1 runs `op1` and is held at its FIRST
+/// such point until thread 2 has finished `op2` (or 400 ms have passed: with the per-key lock
+/// thread 2 cannot get in and simply waits for thread 1). Returns whether thread 2 finished while
+/// thread 1 was held.
+fn scheduled_case(setup: &[Op], op1: Op, op2: Op, tag: &str, w: &mut CaseWriter) -> bool {
+    let e = Arc::new(GraphEngine::new());
+    for (i, o) in setup.iter().enumerate() {
+        let _ = apply(&e, o, i as u64);
+    }
+    // (thread 1 is at the hook, thread 2 is done)
+    let st = Arc::new((Mutex::new((false, false)), Condvar::new()));
+    let st_hook = st.clone();
+    let overlapped = Arc::new(Mutex::new(false));
+    let overlapped_hook = overlapped.clone();
+    tensor_store::verif_hook::set(Some(Arc::new(move |name: &str| {
+        if name != "graph.adjacency_rmw" || !PAUSER.with(|p| p.replace(false)) {
+            return;
+        }
+        let (m, cv) = &*st_hook;
+        let mut g = m.lock().unwrap();
+        g.0 = true;
+        cv.notify_all();
+        let (g2, _timeout) = cv.wait_timeout_while(g, Duration::from_millis(400), |s| !s.1).unwrap();
+        *overlapped_hook.lock().unwrap() = g2.1;
+    })));
+    let (e1, e2) = (e.clone(), e.clone());
+    let st2 = st.clone();
+    let o1 = op1.clone();
+    let t1 = std::thread::spawn(move || {
+        PAUSER.with(|p| p.set(true));
+        let r = apply(&e1, &o1, 1);
+        PAUSER.with(|p| p.set(false));
+        r
+    });
+    let o2 = op2.clone();
+    let t2 = std::thread::spawn(move || {
+        let (m, cv) = &*st2;
+        {
+            let g = m.lock().unwrap();
+            let _g = cv.wait_timeout_while(g, Duration::from_millis(2000), |s| !s.0).unwrap();
+        }
+        let r = apply(&e2, &o2, 2);
+        let mut g = m.lock().unwrap();
+        g.1 = true;
+        cv.notify_all();
+        r
+    });
+    let r1 = t1.join().unwrap_or(Res::Err);
+    let r2 = t2.join().unwrap_or(Res::Err);
+    tensor_store::verif_hook::set(None);
+    let fix = |o: &Op, r: &Res| match (o, r) {
+        (Op::CreateEdge(f, t, d), Res::Id(id)) => Op::CreateEdgeId(*id, *f, *t, *d),
+        _ => o.clone(),
+    };
+    let ob = observe(&e);
+    let term = format!(
+        "(0, {}, [[({}, {})]; [({}, {})]], {})",
+        list(setup.iter().map(|o| o.coq())),
+        fix(&op1, &r1).coq(), r1.coq(), fix(&op2, &r2).coq(), r2.coq(), ob
+    );
+    let ov = *overlapped.lock().unwrap();
+    w.push(&term, &format!("{tag} schedule: T1 {:?} held between list read and write-back, T2 {:?}; T2 finished while T1 was held: {ov}", op1, op2), true);
+    ov
+}
+
 fn main() {
     let args = Args::parse();
     quiet_panics();
@@ -270,6 +342,23 @@ fn main() {
         let threads: Vec<Vec<Op>> = (0..8).map(|_| (0..50).map(|i| Op::CreateEdge(1, 2 + i, true)).collect()).collect();
         conc_case(0, &setup, threads, "corpus F-C05-rmw hub 8x50", &mut conc);
         dist.hit("conc.hub_create");
+    }
+    // deterministic schedules through the hook: the lost-update interleaving of C05_lost_update_refuted
+    {
+        let setup = vec![Op::CreateNode, Op::CreateNode, Op::CreateNode, Op::CreateEdge(1, 2, false), Op::CreateEdge(3, 1, true)];
+        let mut overlapped = 0;
+        for (o1, o2) in [
+            (Op::CreateEdge(1, 2, true), Op::CreateEdge(1, 3, true)),
+            (Op::CreateEdge(1, 2, false), Op::CreateEdge(3, 1, false)),
+            (Op::DeleteEdge(1), Op::CreateEdge(1, 3, true)),
+            (Op::CreateEdge(2, 1, true), Op::DeleteEdge(2)),
+        ] {
+            if scheduled_case(&setup, o1, o2, "hook schedule", &mut conc) {
+                overlapped += 1;
+            }
+            dist.hit("conc.hook_schedule");
+        }
+        dist.add("conc.hook_schedule.t2_finished_inside_t1_rmw", overlapped);
     }
     // delete_node above PARALLEL_THRESHOLD (rayon branch) with many edges to the same few neighbours
     for rep in 0..args.budget(3, 30) {
